@@ -26,8 +26,10 @@ CONSTANTS ApproxZeroBug,
 (* lattice unit: 100 km; values in km *)
 Polygons == << << <<0, 0>>, <<4, 0>>, <<4, 3>>, <<0, 3>> >>,          \* has corners with a zero coordinate
                << <<1, 1>>, <<5, 1>>, <<5, 4>>, <<1, 4>> >>,
-               << <<-2, 0>>, <<2, -1>>, <<3, 2>>, <<0, 4>>, <<-3, 2>> >> >>   \* pentagon, a corner on an axis
-Interior(pi) == CASE pi = 1 -> << <<2, 1>>, <<1, 2>> >> [] pi = 2 -> << <<3, 2>>, <<2, 3>> >> [] pi = 3 -> << <<0, 1>>, <<1, 2>> >>
+               << <<-2, 0>>, <<2, -1>>, <<3, 2>>, <<0, 4>>, <<-3, 2>> >>,     \* pentagon, a corner on an axis
+               << <<1, 1>>, <<21, 1>>, <<21, 21>>, <<1, 21>> >> >>            \* a large square with irregularly placed interior points (spherical family)
+Interior(pi) == CASE pi = 1 -> << <<2, 1>>, <<1, 2>> >> [] pi = 2 -> << <<3, 2>>, <<2, 3>>, <<4, 3>>, <<2, 2>>, <<4, 2>> >> [] pi = 3 -> << <<0, 1>>, <<1, 2>> >>
+                 [] pi = 4 -> << <<4, 19>>, <<11, 16>>, <<13, 3>>, <<16, 17>> >>
 
 Affine(p) == 100 + 10 * p[1] + 5 * p[2]           \* km
 Default == 60                                      \* the value of the point-less first entry
@@ -37,13 +39,21 @@ Default == 60                                      \* the value of the point-les
 AreaTypes == {"continental plate", "oceanic plate", "mantle layer"}
 (* which: the surface is the feature's max depth (min depth constant), its min depth (max depth constant), or both
    (the max depth surface is the min depth surface shifted down by 150 km) *)
-Configs == [poly : 1..3, listed : SUBSET (1..4), nint : 0..2, affine : BOOLEAN, cornersfirst : BOOLEAN, type : AreaTypes, which : {"max", "min", "both"},
+Configs == [poly : 1..4, listed : SUBSET (1..4), nint : {0, 1, 2, 4, 5}, affine : BOOLEAN, cornersfirst : BOOLEAN, type : AreaTypes, which : {"max", "min", "both"},
             reset : Resets,
             where : {"feature", "composition model", "temperature model"},   \* whose min / max depth the surface is
-            sph : BOOLEAN]                                                   \* lattice unit 1 degree instead of 100 km
+            sph : BOOLEAN,                                                   \* lattice unit 1 degree instead of 100 km
+            lonoff : {0, 177, 169}]                                               \* spherical: every longitude shifted by this many degrees (the polygon then spans 178..182)
 Valid(c) == /\ c.affine => (c.listed = 1..4 /\ c.reset = "none")   \* affine data need every corner listed (a fifth corner of the pentagon too)
             \* model-level surfaces and spherical worlds: on the second polygon, oceanic plates, corners first
-            /\ (c.where # "feature" \/ c.sph) => (c.poly = 2 /\ c.type = "oceanic plate" /\ c.cornersfirst /\ c.reset = "none")
+            /\ (c.where # "feature" \/ c.sph) => (c.poly \in {2, 4} /\ c.type = "oceanic plate" /\ c.cornersfirst /\ c.reset = "none")
+            \* many listed interior points (ten triangles) and the shifted polygon: spherical, affine data
+            /\ (c.nint = 5 => (c.sph /\ c.affine /\ c.where = "feature"))
+            /\ (c.lonoff = 177 => (c.sph /\ c.affine /\ c.nint = 5))
+            \* the large square: spherical, affine, its four irregular interior points, at longitudes 1..21 or 170..190
+            /\ (c.poly = 4 <=> c.nint = 4) /\ (c.lonoff = 169 => c.poly = 4)
+            /\ (c.poly = 4 => (c.sph /\ c.affine /\ c.where = "feature" /\ c.type = "oceanic plate" /\ c.cornersfirst /\ c.reset = "none"
+                              /\ c.which = "max"))          \* (its affine values reach 415 km, below the constant 400 km max depth of the other two)
             /\ c.reset # "none" => c.nint > 0                       \* a later point-less entry is interesting when listed interior points precede it
 ResetV == 80                                       \* the value of the later point-less entry: resets the corners, and only the corners
 
@@ -99,7 +109,7 @@ MechRefinesProp(c) ==
 U == 100 * Km
 HM == 2000 * Km
 RE == 6371000
-PtM(c, p) == IF c.sph THEN <<p[1], p[2]>> ELSE <<p[1] * U, p[2] * U>>
+PtM(c, p) == IF c.sph THEN <<p[1] + c.lonoff, p[2]>> ELSE <<p[1] * U, p[2] * U>>
 RenderEntry(c, e, shift) == IF Len(e) = 1 THEN <<(e[1] + shift) * Km>> ELSE <<(e[1] + shift) * Km, [j \in 1..Len(e[2]) |-> PtM(c, e[2][j])]>>
 SurfaceOf(c, shift) == [k \in 1..Len(Entries(c)) |-> RenderEntry(c, Entries(c)[k], shift)]
 LoOf(c) == IF c.which = "max" THEN 0 ELSE SurfaceOf(c, 0)
@@ -121,7 +131,7 @@ MinNodal(c) == LET N == Nodal(c) IN CHOOSE m \in {N[p] : p \in DOMAIN N} : \A p 
 MaxNodal(c) == LET N == Nodal(c) IN CHOOSE m \in {N[p] : p \in DOMAIN N} : \A p \in DOMAIN N : m >= N[p]
 
 (* rows <<x, y, z, depth, expected composition>>: 1 m above the predicted depth the composition is on, 1 m below off *)
-RowAt(c, p2, d, v) == IF c.sph THEN <<RE - d, Rat(p2[1], 2), Rat(p2[2], 2), d, v>> ELSE <<p2[1] * 50 * Km, p2[2] * 50 * Km, HM - d, d, v>>
+RowAt(c, p2, d, v) == IF c.sph THEN <<RE - d, Rat(p2[1] + 2 * c.lonoff, 2), Rat(p2[2], 2), d, v>> ELSE <<p2[1] * 50 * Km, p2[2] * 50 * Km, HM - d, d, v>>
 SwitchAt(c, p2, d, shallow, deep) == << RowAt(c, p2, d - 1, shallow), RowAt(c, p2, d + 1, deep) >>
 (* d2: twice the predicted depth in metres (half-lattice values of the affine function are half-integers in km) *)
 SwitchC(c, p2, d) == CASE c.which = "max" -> SwitchAt(c, p2, d, On(c), Off(c))
@@ -132,6 +142,7 @@ Switch(c, p2, dkm) == SwitchC(c, p2, dkm * Km)
 HalfProbes(c) == CASE c.poly = 1 -> {<<x, y>> : x \in 1..7, y \in 1..5}
                    [] c.poly = 2 -> {<<x, y>> : x \in 3..9, y \in 3..7}
                    [] c.poly = 3 -> {<<x, y>> : x \in -2..3, y \in 1..4}
+                   [] c.poly = 4 -> {<<x, y>> : x \in {5, 20, 35}, y \in {5, 20, 35}}
 Rows(c) ==
   LET N == Nodal(c)
       \* on the sphere a polygon corner is a boundary point only up to rounding (degrees -> radians -> Cartesian and back):
@@ -151,12 +162,24 @@ Rows(c) ==
                         IN CASE c.which = "max" -> <<row(lo, On(c)), row(hi, Off(c))>>
                              [] c.which = "min" -> <<row(lo, Off(c)), row(hi, On(c))>>
                              [] c.which = "both" -> <<row(lo, Off(c)), row(hi, On(c)), row(lo + 150 * Km, On(c)), row(hi + 150 * Km, Off(c))>>])
-  IN nodal \o inside
+      \* with many listed points (nint = 5) the affine value is also asked on a dense grid (eighths of a lattice unit): which
+      \* triangle of the triangulation a point falls in, and how that triangle is found, must not matter
+      dense == IF c.nint \in {4, 5} /\ c.affine
+               THEN LET ps == SetToSeq(IF c.poly = 4 THEN {<<2 * x, 2 * y>> : x \in 5..83, y \in 5..83} ELSE {<<x, y>> : x \in 9..39, y \in 9..31}) IN
+                    FlattenSeq([k \in 1..Len(ps) |->
+                       LET d == (800 + 10 * ps[k][1] + 5 * ps[k][2]) * 125       \* f at (x/8, y/8) in metres
+                           row(dd, v) == IF c.sph THEN <<RE - dd, Rat(ps[k][1] + 8 * c.lonoff, 8), Rat(ps[k][2], 8), dd, v>>
+                                         ELSE <<ps[k][1] * 12500, ps[k][2] * 12500, HM - dd, dd, v>>
+                       IN CASE c.which = "max" -> <<row(d - 1, On(c)), row(d + 1, Off(c))>>
+                            [] c.which = "min" -> <<row(d - 1, Off(c)), row(d + 1, On(c))>>
+                            [] OTHER -> <<row(d - 1, Off(c)), row(d + 1, On(c)), row(d + 150 * Km - 1, On(c)), row(d + 150 * Km + 1, Off(c))>>])
+               ELSE <<>>
+  IN nodal \o inside \o dense
 
 Behaviour(c) ==
   [id |-> <<"surface", c>>,
    labels |-> <<"surface", IF c.affine THEN "affine" ELSE "bumped", "poly" \o ToString(c.poly), c.type, "surface-of-" \o c.which, "reset-" \o c.reset,
-                c.where, IF c.sph THEN "spherical" ELSE "cartesian">>
+                c.where, IF c.sph THEN "spherical" ELSE "cartesian", "interior-points-" \o ToString(c.nint), "lon-offset-" \o ToString(c.lonoff)>>
               \o (IF \E e \in {Entries(c)[k] : k \in 1..Len(Entries(c))} : Len(e) = 2 /\ e[2][1] \in Corners(c) /\ (e[2][1][1] = 0 \/ e[2][1][2] = 0)
                   THEN <<"listed-corner-with-zero-coordinate">> ELSE <<>>),
    steps |-> << [op |-> "create", h |-> 1, wb |-> Doc(c)],
